@@ -138,6 +138,25 @@ func monitorVal(rep *Report, r *ValRun) valMonResult {
 			Detail: map[string]interface{}{"state_after_step": r.Snaps[step].Ov().Coq()}})
 		internOff = false
 	}
+	// an exported genesis whose last powers are not exactly the validators' powers (an edited
+	// export): InitGenesis tells the engine the LAST powers; state and engine are reconciled by
+	// the first end blocker, from then on the full invariant must hold
+	reconciled := true
+	if r.Gen.Exported {
+		want := map[uint64]int64{}
+		for _, v := range r.Gen.Vals {
+			want[v.Op] = v.Pow
+		}
+		if len(r.Gen.Last) != len(want) {
+			reconciled = false
+		}
+		for _, l := range r.Gen.Last {
+			if p, ok := want[l.Op]; !ok || p != l.Pow {
+				reconciled = false
+			}
+		}
+	}
+	skipRec := map[int64]bool{}   // records written before the reconciliation list record powers
 	dry := map[int64]bool{}       // heights whose block was pre-executed on a discarded branch
 	malformed := map[int64]bool{} // heights that (wrongly) hold a malformed plan
 	plans := map[uint64]planInfo{}
@@ -208,6 +227,16 @@ func monitorVal(rep *Report, r *ValRun) valMonResult {
 		}
 		// ---- per kind ----
 		switch kind {
+		case "probe":
+			if !sameState(prev, s) && !(s.Verdict == "ERR") {
+				viol(i, "C14:discarded-execution-changed-state", "an executor probe on a discarded branch changed the state")
+			}
+			if op.ProbeWant && s.Verdict != "OK" {
+				viol(i, "C14:plan-executor-refused", fmt.Sprintf("%s is one of the bridge executors %q but was refused: %s", op.Sender, s.Execs, s.Err))
+			}
+			if !op.ProbeWant && s.Verdict == "OK" {
+				viol(i, "C14:non-executor-accepted", fmt.Sprintf("%s is not one of the bridge executors %q but was accepted", op.Sender, s.Execs))
+			}
 		case "dryblock":
 			dry[op.H] = true
 			if !sameStore(prev, s) {
@@ -246,6 +275,9 @@ func monitorVal(rep *Report, r *ValRun) valMonResult {
 					}
 				}
 				exp[k] = prev.Eng
+				if !reconciled {
+					skipRec[k] = true
+				}
 			}
 			if res.Emptied || taint != "" {
 				// the engine no longer follows the state; the records are compared with the model only
@@ -262,7 +294,7 @@ func monitorVal(rep *Report, r *ValRun) valMonResult {
 					} else {
 						viol(i, "C13:history-not-pruned", fmt.Sprintf("record of height %d survives outside the retention window of %d at height %d", h.H, e, k))
 					}
-				} else if !kpEq(want, h.Recs) {
+				} else if !kpEq(want, h.Recs) && !skipRec[h.H] {
 					viol(i, "C13:history-wrong-record", fmt.Sprintf("record of height %d is %v, bonded set was %v", h.H, h.Recs, want))
 				}
 			}
@@ -320,9 +352,16 @@ func monitorVal(rep *Report, r *ValRun) valMonResult {
 				if !s.Acc {
 					problems = append(problems, "the engine rejected the batch "+fmt.Sprint(s.Batch)+": "+s.EngErr)
 				}
-				if !kpEq(bonded, s.Eng) || !lastOK || !kpEq(last, s.Eng) {
+				if kind == "genesis" && !reconciled {
+					if !lastOK || !kpEq(last, s.Eng) {
+						problems = append(problems, fmt.Sprintf("edited export: engine %v, last powers %v", s.Eng, last))
+					}
+				} else if !kpEq(bonded, s.Eng) || !lastOK || !kpEq(last, s.Eng) {
 					problems = append(problems, fmt.Sprintf("engine %v, positive-power validators %v, last powers %v", s.Eng, bonded, last))
 				}
+			}
+			if kind == "end" {
+				reconciled = true
 			}
 			if pl, has := plans[uint64(op.H)]; has && kind == "end" {
 				// the plan writes its validator after this block's messages: a removal of that
